@@ -214,6 +214,25 @@ func HealthySessions(rng *rand.Rand, thorough bool) []Session {
 			[]DOp{{Op: "exec", R: "r1", To: true, From: true, Unenc: 1}, {Op: "join", R: "r1"}, {Op: "close"}},
 			[]SOp{{Op: "expectdonelong"}}))
 	}
+	// A caller that answers every emitted signal: ONE consumer goroutine receives from signalsFromStep
+	// and, before it receives again, sends an answer on signalsToStep (both unbuffered). The plugin
+	// emits k signals right after the work-start, waits for the answers, then finishes. The consumer
+	// depends on the signal writer goroutine taking its answer, the read loop (which hands signals
+	// over WHILE HOLDING THE CLIENT MUTEX) depends on the consumer - so the writer goroutine must
+	// never need the client mutex on its way to (or between) taking signals.
+	for _, k := range []int{2, 3, 4} {
+		sv := []SOp{{Op: "expectws", R: "r1"}}
+		for i := 0; i < k; i++ {
+			sv = append(sv, SOp{Op: "sig", R: "r1"})
+		}
+		sv = append(sv, SOp{Op: "expectsig", N: k}, SOp{Op: "done", R: "r1", X: 1}, SOp{Op: "expectdone"})
+		out = append(out, hs(fmt.Sprintf("sigecho-%d", k), 3,
+			[]DOp{{Op: "exec", R: "r1", To: true, From: true, Answer: true}, {Op: "join", R: "r1"}, {Op: "close"}}, sv))
+	}
+	out = append(out, hs("sigecho-2-runs", 3,
+		[]DOp{{Op: "exec", R: "r1", To: true, From: true, Answer: true}, {Op: "exec", R: "r2", To: true, From: true, Answer: true}, {Op: "joinall"}, {Op: "exec", R: "r3"}, {Op: "join", R: "r3"}, {Op: "close"}},
+		[]SOp{{Op: "expectws", R: "r1"}, {Op: "sig", R: "r1"}, {Op: "sig", R: "r1"}, {Op: "expectws", R: "r2"}, {Op: "sig", R: "r2"}, {Op: "sig", R: "r1"}, {Op: "sig", R: "r2"},
+			{Op: "expectsig", N: 5}, {Op: "done", R: "r2", X: 2}, {Op: "done", R: "r1", X: 1}, {Op: "expectws", R: "r3"}, {Op: "done", R: "r3", X: 3}, {Op: "expectdone"}}))
 	// duplicate and blank run IDs
 	out = append(out, hs("duplicate-run", 3,
 		[]DOp{{Op: "exec", R: "r1"}, {Op: "await", N: 2}, {Op: "exec", R: "r1", To: true}, {Op: "join", R: "r1"}, {Op: "mark", N: 1}, {Op: "joinall"}, {Op: "close"}},
@@ -592,6 +611,28 @@ func FaultJobs(rng *rand.Rand, thorough bool) []FaultJob {
 	for _, t := range []string{"pipe", "buf"} {
 		out = append(out, FaultJob{Job{Session: silent, Transport: t, WriteFailAfter: 1, TimeoutMs: 3000}, "c08-wfail"})
 		out = append(out, FaultJob{Job{Session: leak, Transport: t, WriteFailAfter: 2, TimeoutMs: 3000}, "c08-wfail"})
+	}
+	return out
+}
+
+// MarkerWriterNeedsMutex marks the findings of SignalEchoWitnesses.
+const MarkerWriterNeedsMutex = "signal-writer-needs-client-mutex"
+
+// SignalEchoWitnesses: the sigecho history with the start of the signal writer goroutine
+// (executeWriteLoop's first statement) held back for 100 ms, deterministically: emitted signal 1
+// reaches the consumer, the consumer blocks sending its answer (the writer is not receiving yet),
+// the read loop takes the client mutex and blocks handing over emitted signal 2, the writer
+// arrives at its opening `c.mutex.Lock()` - and nobody moves again.
+func SignalEchoWitnesses() []Session {
+	var out []Session
+	for _, s := range HealthySessions(rand.New(rand.NewSource(1)), false) {
+		if s.Name == "sigecho-2" || s.Name == "sigecho-3" {
+			s.Name += "-late-writer"
+			s.DelayFn = "executeWriteLoop"
+			s.DelayMs = 100
+			s.Marker = MarkerWriterNeedsMutex
+			out = append(out, s)
+		}
 	}
 	return out
 }
